@@ -6,24 +6,22 @@ package main
 // engine.
 
 import (
-	"bytes"
 	"encoding/binary"
 	"encoding/hex"
 	"fmt"
-	"sort"
-	"strings"
+	"os"
+	"path/filepath"
 	"time"
 
 	"github.com/btcsuite/btcd/btcec/v2"
 	"github.com/btcsuite/btcd/btcutil"
-	"github.com/btcsuite/btcd/btcutil/psbt"
+	"github.com/btcsuite/btcd/btcutil/hdkeychain"
 	"github.com/btcsuite/btcd/chaincfg"
 	"github.com/btcsuite/btcd/chaincfg/chainhash"
 	"github.com/btcsuite/btcd/txscript"
 	"github.com/btcsuite/btcd/wire"
 	"github.com/btcsuite/btcwallet/waddrmgr"
 	"github.com/btcsuite/btcwallet/wallet"
-	"github.com/btcsuite/btcwallet/wallet/txsizes"
 	"github.com/btcsuite/btcwallet/walletdb"
 	"github.com/btcsuite/btcwallet/wtxmgr"
 	"github.com/lightningnetwork/lnd/clock"
@@ -34,18 +32,39 @@ import (
 
 func hdPub(b []byte) (*btcec.PublicKey, error) { return btcec.ParsePubKey(b) }
 
-var scopeOf = map[int]waddrmgr.KeyScope{
-	44: waddrmgr.KeyScopeBIP0044,
-	49: waddrmgr.KeyScopeBIP0049Plus,
-	84: waddrmgr.KeyScopeBIP0084,
-	86: waddrmgr.KeyScopeBIP0086,
+// customScope has the purpose of BIP84 and another coin type: a comparison of
+// key scopes by purpose alone confuses it with waddrmgr.KeyScopeBIP0084.
+var customScope = waddrmgr.KeyScope{Purpose: 84, Coin: customCoin}
+
+// keyScope returns the key scope (purpose, coin) of a request or output
+// (purpose 0 = none).
+func keyScope(purpose, coin int) (waddrmgr.KeyScope, bool) {
+	if coin == customCoin && purpose == 84 {
+		return customScope, true
+	}
+	if coin != 0 {
+		return waddrmgr.KeyScope{}, false
+	}
+	switch purpose {
+	case 44:
+		return waddrmgr.KeyScopeBIP0044, true
+	case 49:
+		return waddrmgr.KeyScopeBIP0049Plus, true
+	case 84:
+		return waddrmgr.KeyScopeBIP0084, true
+	case 86:
+		return waddrmgr.KeyScopeBIP0086, true
+	}
+	return waddrmgr.KeyScope{}, false
 }
 
 // ---- inputs -------------------------------------------------------------
 
 type fundOut struct {
 	Scope    int    `json:"scope,omitempty"`
-	Acct     uint32 `json:"acct,omitempty"`
+	Coin     int    `json:"coin,omitempty"` // coin type of the key scope (1 = the custom scope (84, 1))
+	Acct     uint32 `json:"acct,omitempty"` // 0..2; 3 = the watch-only account (scopes 84, 86)
+	Imp      int    `json:"imp,omitempty"`  // > 0: pays the i-th imported private key (scope/acct ignored)
 	Amt      int64  `json:"amt"`
 	Internal bool   `json:"int,omitempty"`
 	Ext      bool   `json:"ext,omitempty"` // pays a script outside the wallet
@@ -54,6 +73,7 @@ type fundOut struct {
 type payOut struct {
 	Kind  string `json:"kind"` // p2wpkh p2pkh p2tr p2sh p2wsh | own
 	Scope int    `json:"scope,omitempty"`
+	Coin  int    `json:"coin,omitempty"`
 	Acct  uint32 `json:"acct,omitempty"`
 	Amt   int64  `json:"amt"`
 }
@@ -61,14 +81,16 @@ type payOut struct {
 type reqSpec struct {
 	API      string   `json:"api"` // create | send | sendwith | fundpsbt
 	Acct     uint32   `json:"acct"`
-	Scope    int      `json:"scope"` // 0 = no key scope
+	Scope    int      `json:"scope"` // purpose; 0 = no key scope
+	Coin     int      `json:"coin,omitempty"`
 	MinConf  int32    `json:"minconf"`
 	Rate     int64    `json:"rate"`
 	Strat    string   `json:"strat"` // largest | random | nil
 	Pay      []payOut `json:"pay"`
 	Dry      bool     `json:"dry,omitempty"`
 	Publish  bool     `json:"publish,omitempty"`
-	Reject   bool     `json:"reject,omitempty"`   // backend rejects the broadcast
+	Reject   bool     `json:"reject,omitempty"`   // backend rejects the broadcast (a reason of its own)
+	Accept   bool     `json:"accept,omitempty"`   // backend accepts whatever it is handed (a node that has not seen the conflict)
 	Explicit []int    `json:"explicit,omitempty"` // coin selectors (-1 = an outpoint nobody knows)
 	Allow    []int    `json:"allow,omitempty"`    // WithUtxoFilter: only these coins
 	HasAllow bool     `json:"has_allow,omitempty"`
@@ -76,7 +98,7 @@ type reqSpec struct {
 }
 
 type op struct {
-	K       string    `json:"k"` // fund cbfund spend mine reorg lock unlock lease release tick abandon publish req
+	K       string    `json:"k"` // fund cbfund spend mine reorg lock unlock lease release tick abandon publish restart race req
 	Outs    []fundOut `json:"outs,omitempty"`
 	Conf    bool      `json:"conf,omitempty"`
 	Coins   []int     `json:"coins,omitempty"`
@@ -90,12 +112,17 @@ type op struct {
 	Double  bool      `json:"double,omitempty"` // spend: outputs already spent by UNCONFIRMED transactions may be spent again
 	Tx      int       `json:"tx,omitempty"`     // abandon: selector of a known unconfirmed transaction; publish: of a held one
 	Reject  bool      `json:"reject,omitempty"` // publish: the backend rejects the broadcast
+	Accept  bool      `json:"accept,omitempty"` // publish: the backend accepts without looking
 	Req     *reqSpec  `json:"req,omitempty"`
+	Race    []reqSpec `json:"race,omitempty"` // race: SendOutputs requests issued at once from as many goroutines
 }
 
 type c06Input struct {
-	WSeed int  `json:"wseed"`
-	Ops   []op `json:"ops"`
+	WSeed int `json:"wseed"`
+	// WatchOnlyWallet: the whole wallet is watch-only (created without a
+	// seed; account 0 of scopes 84 and 86 imported by public key).
+	WatchOnlyWallet bool `json:"wo_wallet,omitempty"`
+	Ops             []op `json:"ops"`
 }
 
 // ---- observations -------------------------------------------------------
@@ -107,7 +134,10 @@ type candObs struct {
 	Amt int64    `json:"amt"`
 	H   int32    `json:"h"`
 	CB  bool     `json:"cb"`
-	Own *[2]int  `json:"own"` // address manager: purpose, account (null = not found)
+	Own *[3]int  `json:"own"` // address manager: scope purpose, scope coin type, account (null = not found)
+	// Priv: the managed address answers PrivKey() (asked only when the request
+	// is for the imported account: the only case the sign / skip decision reads it)
+	Priv bool `json:"priv,omitempty"`
 	AT  string   `json:"at"`
 	VS  int      `json:"vs"`
 	Why []string `json:"why,omitempty"` // ledger's view for the request (evidence only)
@@ -117,7 +147,12 @@ type reqObs struct {
 	API      string    `json:"api"`
 	Site     string    `json:"site"`
 	Acct     uint32    `json:"acct"`
-	Scope    int       `json:"scope"`
+	Scope    int       `json:"scope"` // purpose (0 = none)
+	Coin     int       `json:"coin"`
+	WO       bool      `json:"wo"` // the wallet's own IsWatchOnlyAccount(scope or BIP86, account) before the call
+	WalletWO bool      `json:"wallet_wo"` // Manager.WatchOnly()
+	// SignedObservable: false for FundPsbt (it strips the scripts of its inner creation)
+	SignedObservable bool `json:"signed_observable"`
 	MinConf  int32     `json:"minconf"`
 	Rate     int64     `json:"rate"`
 	Strat    string    `json:"strat"`
@@ -130,7 +165,7 @@ type reqObs struct {
 	Maturity int32     `json:"maturity"`
 	Locked   []opRef   `json:"locked"`
 	Cands    []candObs `json:"cands"`
-	Outcome  string    `json:"outcome"` // ok | refused | error
+	Outcome  string    `json:"outcome"` // ok (a transaction was created) | error (an error and nothing created, recorded or sent)
 	Err      string    `json:"err,omitempty"`
 	Inputs   []opRef   `json:"inputs"`
 	Signed   bool      `json:"signed"`
@@ -151,6 +186,9 @@ type c06Obs struct {
 	Deep    bool     `json:"deep_reorgs"`
 	OpsRun  int      `json:"ops_run"`
 	Problem string   `json:"problem,omitempty"`
+	// Notes: behaviour that is recorded and reported but is not a violation
+	// of the property's text (counted in the evidence).
+	Notes map[string]int `json:"notes,omitempty"`
 }
 
 // ---- trace --------------------------------------------------------------
@@ -158,7 +196,10 @@ type c06Obs struct {
 type trace struct {
 	env    *walletenv.Env
 	w      *wallet.Wallet
-	ch     *simchain.Chain
+	ch     *backend
+	woW    bool // watch-only wallet
+	seed   []byte
+	notes  map[string]int
 	clk    *clock.TestClock
 	L      *ledger
 	params *chaincfg.Params
@@ -186,39 +227,183 @@ func seedBytes(n int) []byte {
 	return s
 }
 
-func newTrace(wseed int, deep bool) (*trace, error) {
-	seed := seedBytes(wseed % 3)
-	env, err := walletenv.New(seed, time.Unix(1600000000, 0), 0, nil)
+func newTrace(in c06Input, deep bool) (*trace, error) {
+	seed := seedBytes(in.WSeed % 3)
+	var env *walletenv.Env
+	var err error
+	if in.WatchOnlyWallet {
+		env, err = newWatchOnlyEnv(seed)
+	} else {
+		env, err = walletenv.New(seed, time.Unix(1600000000, 0), 0, nil)
+	}
 	if err != nil {
 		return nil, err
 	}
-	t := &trace{env: env, w: env.W, params: env.Params, intern: map[chainhash.Hash]int64{},
-		tags: map[string]bool{}, deep: deep, noDisc: map[int32]bool{}, requested: map[string]bool{}}
-	t.ch = simchain.New(env.Params)
+	t := &trace{env: env, w: env.W, params: env.Params, intern: map[chainhash.Hash]int64{}, seed: seed,
+		tags: map[string]bool{}, deep: deep, noDisc: map[int32]bool{}, requested: map[string]bool{},
+		notes: map[string]int{}, woW: in.WatchOnlyWallet}
+	t.ch = &backend{Chain: simchain.New(env.Params), t: t}
 	t.clk = clock.NewTestClock(epoch)
-	t.w.TxStore.VerifSetClock(t.clk)
-	t.w.VerifSetChainClient(t.ch)
-	t.w.SetChainSynced(true)
-	if err := t.w.Unlock(walletenv.PrivPass, nil); err != nil {
-		env.Close()
-		return nil, err
-	}
 	tab, err := tableFor(seed, env.Params)
 	if err != nil {
 		env.Close()
 		return nil, err
 	}
 	t.L = newLedger(tab, epoch)
+	if err := t.attach(); err != nil {
+		env.Close()
+		return nil, err
+	}
+	fail := func(err error) (*trace, error) {
+		env.Close()
+		return nil, err
+	}
+	if in.WatchOnlyWallet {
+		// account 0 of scopes 84 and 86 of the wallet's own seed, by public key
+		root, err := hdPubRoot(seed, env.Params)
+		if err != nil {
+			return fail(err)
+		}
+		for _, p := range woPurposes {
+			ak, err := accountKey(root, p, 0, 0)
+			if err != nil {
+				return fail(err)
+			}
+			pub, err := ak.Neuter()
+			if err != nil {
+				return fail(err)
+			}
+			ks, _ := keyScope(p, 0)
+			props, err := t.w.ImportAccountWithScope("default", pub, 0, ks, waddrmgr.ScopeAddrMap[ks])
+			if err != nil {
+				return fail(fmt.Errorf("watch-only wallet: ImportAccountWithScope(%d): %w", p, err))
+			}
+			if props.AccountNumber != 0 {
+				return fail(fmt.Errorf("watch-only wallet: first imported account of scope %d got number %d", p, props.AccountNumber))
+			}
+		}
+		return t, nil
+	}
 	for _, p := range purposes {
+		ks, _ := keyScope(p, 0)
 		for a := uint32(1); a < nAccounts; a++ {
-			got, err := t.w.NextAccount(scopeOf[p], fmt.Sprintf("acct%d", a))
+			got, err := t.w.NextAccount(ks, fmt.Sprintf("acct%d", a))
 			if err != nil || got != a {
-				env.Close()
-				return nil, fmt.Errorf("NextAccount(%d): %d, %v", p, got, err)
+				return fail(fmt.Errorf("NextAccount(%d): %d, %v", p, got, err))
 			}
 		}
 	}
+	// the custom key scope (84, 1): P2WPKH on both branches
+	if _, err := t.w.AddScopeManager(customScope, waddrmgr.ScopeAddrSchema{
+		ExternalAddrType: waddrmgr.WitnessPubKey, InternalAddrType: waddrmgr.WitnessPubKey}); err != nil {
+		return fail(fmt.Errorf("AddScopeManager: %w", err))
+	}
+	for a := uint32(1); a < customAccounts; a++ {
+		got, err := t.w.NextAccount(customScope, fmt.Sprintf("custom%d", a))
+		if err != nil || got != a {
+			return fail(fmt.Errorf("NextAccount(custom): %d, %v", got, err))
+		}
+	}
+	// watch-only accounts: account 0 of a foreign wallet, by extended public key
+	for _, p := range woPurposes {
+		pub, fp, err := woAccountKey(seed, p, env.Params)
+		if err != nil {
+			return fail(err)
+		}
+		ks, _ := keyScope(p, 0)
+		props, err := t.w.ImportAccountWithScope(fmt.Sprintf("watch%d", p), pub, fp, ks, waddrmgr.ScopeAddrMap[ks])
+		if err != nil {
+			return fail(fmt.Errorf("ImportAccountWithScope(%d): %w", p, err))
+		}
+		if props.AccountNumber != woAcct {
+			return fail(fmt.Errorf("watch-only account of scope %d got number %d", p, props.AccountNumber))
+		}
+	}
+	// imported private keys (compressed and uncompressed); ImportPrivateKey
+	// wants a birthday block to compare with
+	err = walletdb.Update(t.w.Database(), func(tx walletdb.ReadWriteTx) error {
+		return t.w.Manager.SetBirthdayBlock(tx.ReadWriteBucket([]byte("waddrmgr")), waddrmgr.BlockStamp{
+			Hash: *env.Params.GenesisHash, Height: 0, Timestamp: env.Params.GenesisBlock.Header.Timestamp}, true)
+	})
+	if err != nil {
+		return fail(err)
+	}
+	for i, ik := range importedKeys {
+		if ik.pubOnly {
+			if err := t.w.ImportPublicKey(importedPriv(seed, i+1).PubKey(), waddrmgr.WitnessPubKey); err != nil {
+				return fail(fmt.Errorf("ImportPublicKey(%d): %w", i+1, err))
+			}
+			continue
+		}
+		wif, err := btcutil.NewWIF(importedPriv(seed, i+1), env.Params, !ik.uncompressed)
+		if err != nil {
+			return fail(err)
+		}
+		ks, _ := keyScope(ik.purpose, 0)
+		if _, err := t.w.ImportPrivateKey(ks, wif, nil, false); err != nil {
+			return fail(fmt.Errorf("ImportPrivateKey(%d): %w", i+1, err))
+		}
+	}
 	return t, nil
+}
+
+func hdPubRoot(seed []byte, params *chaincfg.Params) (*hdkeychain.ExtendedKey, error) {
+	return hdkeychain.NewMaster(seed, params)
+}
+
+// newWatchOnlyEnv creates a wallet without any private key material.
+func newWatchOnlyEnv(seed []byte) (*walletenv.Env, error) {
+	walletenv.FastScrypt()
+	dir, err := os.MkdirTemp("", "vh-wallet-")
+	if err != nil {
+		return nil, err
+	}
+	e := &walletenv.Env{Dir: dir, Path: filepath.Join(dir, "wallet.db"), Params: &chaincfg.RegressionNetParams, Seed: seed}
+	db, err := walletenv.OpenDB(e.Path, true)
+	if err != nil {
+		os.RemoveAll(dir)
+		return nil, err
+	}
+	e.DB = db
+	if err := wallet.CreateWatchingOnly(db, walletenv.PubPass, e.Params, time.Unix(1600000000, 0)); err != nil {
+		e.Close()
+		return nil, err
+	}
+	w, err := wallet.OpenWithRetry(db, walletenv.PubPass, nil, e.Params, 0, 10*time.Millisecond)
+	if err != nil {
+		e.Close()
+		return nil, err
+	}
+	e.W = w
+	w.Start()
+	return e, nil
+}
+
+// attach connects the (re)opened wallet to the backend and the test clock.
+func (t *trace) attach() error {
+	t.w = t.env.W
+	t.w.TxStore.VerifSetClock(t.clk)
+	t.w.VerifSetChainClient(t.ch)
+	t.w.SetChainSynced(true)
+	if t.woW {
+		return nil
+	}
+	return t.w.Unlock(walletenv.PrivPass, nil)
+}
+
+// restart stops the wallet, reopens the database file and the wallet, and
+// re-broadcasts the unconfirmed transactions as the start-up rescan does.
+// In-memory outpoint locks do not survive (they are not persisted).
+func (t *trace) restart() error {
+	if err := t.env.Reopen(0, nil); err != nil {
+		return err
+	}
+	if err := t.attach(); err != nil {
+		return err
+	}
+	t.L.locks = map[wire.OutPoint]bool{}
+	t.w.VerifResendUnminedTxs()
+	return nil
 }
 
 func (t *trace) close() { t.env.Close() }
@@ -267,17 +452,30 @@ func (t *trace) extScript(kind string) []byte {
 	return s
 }
 
-func (t *trace) ownScript(scope int, acct uint32, internal bool) ([]byte, error) {
-	ks, ok := scopeOf[scope]
+func (t *trace) ownScript(scope, coin int, acct uint32, internal bool) ([]byte, error) {
+	ks, ok := keyScope(scope, coin)
 	if !ok {
 		ks = waddrmgr.KeyScopeBIP0084
+		scope, coin = 84, 0
+	}
+	switch {
+	case t.woW:
+		acct = 0
+		if scope != 84 && scope != 86 || coin != 0 {
+			ks, scope, coin = waddrmgr.KeyScopeBIP0084, 84, 0
+		}
+	case coin == customCoin:
+		acct %= customAccounts
+	case acct == woAcct && (scope == 84 || scope == 86):
+	default:
+		acct %= nAccounts
 	}
 	var addr btcutil.Address
 	var err error
 	if internal {
-		addr, err = t.w.NewChangeAddress(acct%nAccounts, ks)
+		addr, err = t.w.NewChangeAddress(acct, ks)
 	} else {
-		addr, err = t.w.NewAddress(acct%nAccounts, ks)
+		addr, err = t.w.NewAddress(acct, ks)
 	}
 	if err != nil {
 		return nil, err
@@ -290,6 +488,16 @@ func (t *trace) ownScript(scope int, acct uint32, internal bool) ([]byte, error)
 		return nil, fmt.Errorf("harness: wallet address %v is outside the independent derivation table", addr)
 	}
 	return pk, nil
+}
+
+// importedPk is the script of the i-th imported private key.
+func (t *trace) importedPk(i int) ([]byte, error) {
+	if t.woW {
+		return t.ownScript(84, 0, 0, false)
+	}
+	i = (i-1)%len(importedKeys) + 1
+	pk, _, err := importedScript(t.seed, i, t.params)
+	return pk, err
 }
 
 func (t *trace) coinSel(s int) *coin {
@@ -306,11 +514,36 @@ func (t *trace) deliver(tx *wire.MsgTx, blk *simchain.Block) error {
 	if err != nil {
 		return err
 	}
-	if blk == nil {
-		return t.w.VerifAddRelevantTx(rec, nil)
+	var meta *wtxmgr.BlockMeta
+	if blk != nil {
+		m := blk.Meta()
+		meta = &m
 	}
-	meta := blk.Meta()
-	return t.w.VerifAddRelevantTx(rec, &meta)
+	if err := t.w.VerifAddRelevantTx(rec, meta); err != nil {
+		return err
+	}
+	// The notification handler deliberately skips outputs paying addresses of
+	// non-default key scopes (the application that registered the scope keeps
+	// track of them).  Outputs of the custom scope are credited the way such
+	// an application can: through the exported transaction store.
+	var custom []uint32
+	for i, out := range tx.TxOut {
+		if o := t.L.table[hex.EncodeToString(out.PkScript)]; o != nil && o.Coin == customCoin {
+			custom = append(custom, uint32(i))
+		}
+	}
+	if len(custom) == 0 {
+		return nil
+	}
+	return walletdb.Update(t.w.Database(), func(dbtx walletdb.ReadWriteTx) error {
+		ns := dbtx.ReadWriteBucket([]byte("wtxmgr"))
+		for _, i := range custom {
+			if err := t.w.TxStore.AddCredit(ns, rec, meta, i, false); err != nil {
+				return err
+			}
+		}
+		return nil
+	})
 }
 
 // mineBlock connects one block holding cb (optional), the fresh external
@@ -407,7 +640,11 @@ func (t *trace) buildOuts(outs []fundOut) ([]*wire.TxOut, error) {
 			s = t.extScript("p2wpkh")
 		} else {
 			var err error
-			s, err = t.ownScript(o.Scope, o.Acct, o.Internal)
+			if o.Imp > 0 {
+				s, err = t.importedPk(o.Imp)
+			} else {
+				s, err = t.ownScript(o.Scope, o.Coin, o.Acct, o.Internal)
+			}
 			if err != nil {
 				return nil, err
 			}
@@ -435,7 +672,7 @@ func (t *trace) exec(o op) error {
 		} else {
 			t.tags["op:mine"] = true
 		}
-	case "req":
+	case "req", "race":
 	default:
 		t.tags["op:"+o.K] = true
 	}
@@ -595,32 +832,51 @@ func (t *trace) exec(o op) error {
 		return nil
 	case "publish":
 		// hand a transaction created earlier (CreateSimpleTx, not a dry run)
-		// to the backend now
+		// to the backend now; the backend decides as a node would unless the
+		// answer is scripted
 		if len(t.held) == 0 || o.Tx < 0 {
 			return nil
 		}
 		i := o.Tx % len(t.held)
 		tx := t.held[i]
 		t.held = append(t.held[:i:i], t.held[i+1:]...)
-		// a node relays no conflict of a confirmed transaction and nothing
-		// that spends outputs it does not know
-		for _, in := range tx.TxIn {
-			if t.L.confirmedSpender(in.PreviousOutPoint) || t.L.liveCoin(in.PreviousOutPoint) == nil {
-				return nil
+		if o.Accept {
+			// "a node that has not seen the conflict": still never a conflict
+			// of a CONFIRMED transaction nor a spend of outputs nobody knows
+			for _, in := range tx.TxIn {
+				if t.L.confirmedSpender(in.PreviousOutPoint) || t.L.liveCoin(in.PreviousOutPoint) == nil {
+					return nil
+				}
 			}
 		}
-		if o.Reject {
-			t.ch.NextSend = []simchain.SendAnswer{simchain.Reject}
-		}
+		before := t.unminedSet()
+		n := t.ch.nSent()
+		t.scriptAnswer(o.Reject, o.Accept)
 		err := t.w.PublishTransaction(tx, "")
-		t.ch.NextSend = nil
-		if err == nil {
-			t.recordPublished(tx)
+		t.ch.script = nil
+		accepted := false
+		for _, s := range t.ch.sentFrom(n) {
+			if s.answer == "accepted" {
+				accepted = true
+			}
+		}
+		switch {
+		case err == nil && accepted:
 			t.tags["published_later"] = true
-		} else {
+		case err == nil:
+			t.tags["publish_later_already_known"] = true
+		default:
 			t.tags["publish_later_rejected"] = true
+			t.checkReleased("PublishTransaction", tx, before)
 		}
 		return nil
+	case "restart":
+		if t.woW {
+			return nil
+		}
+		return t.restart()
+	case "race":
+		return t.race(o.Race)
 	case "req":
 		if o.Req == nil {
 			return nil
@@ -630,590 +886,3 @@ func (t *trace) exec(o op) error {
 	return fmt.Errorf("unknown op %q", o.K)
 }
 
-// ---- requests -----------------------------------------------------------
-
-func classOf(pk []byte) string {
-	switch {
-	case txscript.IsPayToTaproot(pk):
-		return "p2tr"
-	case txscript.IsPayToWitnessPubKeyHash(pk):
-		return "p2wpkh"
-	case txscript.IsPayToScriptHash(pk):
-		return "np2wpkh"
-	case txscript.IsPayToPubKeyHash(pk):
-		return "p2pkh"
-	}
-	return "other"
-}
-
-// snapshot dumps what the wallet's selection will see: UnspentOutputs with
-// the address manager's answer per script, the chain height, the lock set.
-func (t *trace) snapshot(ro *reqObs, rv reqView) error {
-	bs, err := t.ch.BlockStamp()
-	if err != nil {
-		return err
-	}
-	ro.Height = bs.Height
-	ro.Maturity = int32(t.params.CoinbaseMaturity)
-	for _, li := range t.w.LockedOutpoints() {
-		h, err := chainhash.NewHashFromStr(li.Txid)
-		if err != nil {
-			return err
-		}
-		ro.Locked = append(ro.Locked, t.ref(wire.OutPoint{Hash: *h, Index: li.Vout}))
-	}
-	sort.Slice(ro.Locked, func(i, j int) bool {
-		return ro.Locked[i][0] < ro.Locked[j][0] || (ro.Locked[i][0] == ro.Locked[j][0] && ro.Locked[i][1] < ro.Locked[j][1])
-	})
-	return walletdb.View(t.w.Database(), func(tx walletdb.ReadTx) error {
-		txns := tx.ReadBucket([]byte("wtxmgr"))
-		adns := tx.ReadBucket([]byte("waddrmgr"))
-		us, err := t.w.TxStore.UnspentOutputs(txns)
-		if err != nil {
-			return err
-		}
-		for _, u := range us {
-			c := candObs{Op: t.ref(u.OutPoint), Amt: int64(u.Amount), H: u.Height, CB: u.FromCoinBase,
-				AT: classOf(u.PkScript), VS: txsizes.GetMinInputVirtualSize(u.PkScript)}
-			_, addrs, _, err := txscript.ExtractPkScriptAddrs(u.PkScript, t.params)
-			if err == nil && len(addrs) == 1 {
-				if mgr, acct, err := t.w.Manager.AddrAccount(adns, addrs[0]); err == nil {
-					c.Own = &[2]int{int(mgr.Scope().Purpose), int(acct)}
-				}
-			}
-			c.Why = t.L.whyNot(u.OutPoint, rv, nil)
-			ro.Cands = append(ro.Cands, c)
-		}
-		sort.Slice(ro.Cands, func(i, j int) bool {
-			a, b := ro.Cands[i].Op, ro.Cands[j].Op
-			return a[0] < b[0] || (a[0] == b[0] && a[1] < b[1])
-		})
-		return nil
-	})
-}
-
-func (t *trace) flag(kind, site string, detail string) {
-	t.viols = append(t.viols, violation{Kind: kind, Site: site, Req: len(t.reqs), Detail: detail})
-}
-
-func isSigned(tx *wire.MsgTx) bool {
-	if len(tx.TxIn) == 0 {
-		return false
-	}
-	for _, in := range tx.TxIn {
-		if len(in.SignatureScript) == 0 && len(in.Witness) == 0 {
-			return false
-		}
-	}
-	return true
-}
-
-// verifySigs runs the script engine with standard flags on every input whose
-// previous output the ledger knows.
-func (t *trace) verifySigs(tx *wire.MsgTx) {
-	prev := map[wire.OutPoint]*wire.TxOut{}
-	for _, in := range tx.TxIn {
-		if c := t.L.byOp[in.PreviousOutPoint]; c != nil {
-			prev[in.PreviousOutPoint] = wire.NewTxOut(c.amt, c.pk)
-		}
-	}
-	if len(prev) != len(tx.TxIn) {
-		// an input the ledger has never seen (already reported as not owned):
-		// the signature hashes cannot be computed independently
-		known := map[wire.OutPoint]bool{}
-		for _, in := range tx.TxIn {
-			known[in.PreviousOutPoint] = true
-		}
-		if len(prev) != len(known) {
-			t.tags["sig_check_skipped_unknown_prevout"] = true
-			return
-		}
-	}
-	fetcher := txscript.NewMultiPrevOutFetcher(prev)
-	hashes := txscript.NewTxSigHashes(tx, fetcher)
-	for i, in := range tx.TxIn {
-		po := prev[in.PreviousOutPoint]
-		if po == nil {
-			continue
-		}
-		at := classOf(po.PkScript)
-		vm, err := txscript.NewEngine(po.PkScript, tx, i, txscript.StandardVerifyFlags, nil, hashes, po.Value, fetcher)
-		if err == nil {
-			err = vm.Execute()
-		}
-		if err != nil {
-			t.flag("invalid_signature", at, fmt.Sprintf("input %d (%v): %v", i, in.PreviousOutPoint, err))
-		} else {
-			t.tags["sig_ok:"+at] = true
-		}
-	}
-}
-
-// judge states the property on one created transaction.
-func (t *trace) judge(site string, rv reqView, tx *wire.MsgTx, signed bool) {
-	seen := map[wire.OutPoint]bool{}
-	self := tx.TxHash()
-	for _, in := range tx.TxIn {
-		op := in.PreviousOutPoint
-		if seen[op] {
-			t.flag("duplicate_input", site, fmt.Sprintf("%v used twice", op))
-		}
-		seen[op] = true
-		for _, w := range t.L.whyNot(op, rv, &self) {
-			t.flag(kindOf[w], site, fmt.Sprintf("%v: %s", op, w))
-		}
-		if p := t.L.published[op]; p != nil && p.alive && p.hash != self {
-			t.flag("published_input_reused", site, fmt.Sprintf("%v is an input of published %v", op, p.hash))
-		}
-	}
-	if signed {
-		t.verifySigs(tx)
-	}
-}
-
-func (t *trace) recordPublished(tx *wire.MsgTx) {
-	t.checkChange(tx)
-	lt := t.L.add(tx, -1, true)
-	lt.published = true
-	for _, in := range tx.TxIn {
-		t.L.published[in.PreviousOutPoint] = lt
-	}
-}
-
-// checkChange: every output the wallet added to a transaction (its change)
-// must be a script the independent derivation table knows, or the ledger
-// would not see the change as a wallet coin (a harness limit, not a finding).
-func (t *trace) checkChange(tx *wire.MsgTx) {
-	for _, out := range tx.TxOut {
-		if t.requested[hex.EncodeToString(out.PkScript)] || t.L.table[hex.EncodeToString(out.PkScript)] != nil {
-			continue
-		}
-		t.problem = fmt.Sprintf("harness: output script %x of a wallet transaction is outside the derivation table", out.PkScript)
-	}
-}
-
-func errClass(err error) string {
-	if err == nil {
-		return "ok"
-	}
-	if strings.Contains(err.Error(), "selected outpoint") {
-		return "refused"
-	}
-	return "error"
-}
-
-func (t *trace) request(rs *reqSpec) error {
-	rv := reqView{acct: rs.Acct, scope: rs.Scope, minconf: rs.MinConf, maturity: int32(t.params.CoinbaseMaturity)}
-	var scopePtr *waddrmgr.KeyScope
-	if ks, ok := scopeOf[rs.Scope]; ok {
-		scopePtr = &ks
-	} else {
-		rv.scope = 0
-	}
-	var strat wallet.CoinSelectionStrategy
-	switch rs.Strat {
-	case "largest":
-		strat = wallet.CoinSelectionLargest
-	case "random":
-		strat = wallet.CoinSelectionRandom
-	}
-	// requested outputs
-	var outs []*wire.TxOut
-	for _, p := range rs.Pay {
-		var s []byte
-		if p.Kind == "own" {
-			var err error
-			if s, err = t.ownScript(p.Scope, p.Acct, false); err != nil {
-				return err
-			}
-		} else {
-			s = t.extScript(p.Kind)
-		}
-		outs = append(outs, wire.NewTxOut(p.Amt, s))
-		t.requested[hex.EncodeToString(s)] = true
-	}
-	// explicit selection / caller-supplied inputs
-	pick := func(sels []int) []wire.OutPoint {
-		var ops []wire.OutPoint
-		for _, s := range sels {
-			if c := t.coinSel(s); c != nil {
-				ops = append(ops, c.op)
-			} else {
-				ops = append(ops, wire.OutPoint{Hash: t.fresh(), Index: uint32(len(ops))})
-			}
-		}
-		return ops
-	}
-	sel := pick(rs.Explicit)
-	psbtIn := pick(rs.PsbtIn)
-	var opts []wallet.TxCreateOption
-	site := map[string]string{"create": "CreateSimpleTx", "send": "SendOutputs", "sendwith": "SendOutputsWithInput",
-		"fundpsbt": "FundPsbt"}[rs.API]
-	if site == "" {
-		return fmt.Errorf("unknown api %q", rs.API)
-	}
-	if len(sel) > 0 && rs.API != "sendwith" {
-		opts = append(opts, wallet.WithCustomSelectUtxos(sel))
-		site += "(WithCustomSelectUtxos)"
-	}
-	if rs.API == "send" {
-		sel = nil
-		opts = nil
-		site = "SendOutputs"
-	}
-	var allowOps []wire.OutPoint
-	hasAllow := rs.HasAllow && rs.API != "send" && rs.API != "sendwith"
-	if hasAllow {
-		allowOps = pick(rs.Allow)
-		allowed := map[wire.OutPoint]bool{}
-		for _, o := range allowOps {
-			allowed[o] = true
-		}
-		opts = append(opts, wallet.WithUtxoFilter(func(u wtxmgr.Credit) bool { return allowed[u.OutPoint] }))
-	}
-	if rs.API == "fundpsbt" && len(psbtIn) > 0 {
-		return t.fundPsbtWithInputs(rs, rv, scopePtr, strat, outs, psbtIn)
-	}
-
-	ro := reqObs{API: rs.API, Site: site, Acct: rs.Acct, Scope: rv.scope, MinConf: rs.MinConf, Rate: rs.Rate,
-		Strat: rs.Strat, Explicit: t.refs(sel), Allow: t.refs(allowOps), HasAllow: hasAllow,
-		Dry: rs.Dry && rs.API == "create", InModel: true, Inputs: []opRef{}, Locked: []opRef{}, Cands: []candObs{}}
-	if ro.Strat == "" {
-		ro.Strat = "nil"
-	}
-	if err := t.snapshot(&ro, rv); err != nil {
-		return err
-	}
-	// the ledger's opinion of the selection, before the call
-	selBad := map[string]bool{}
-	dupSel := false
-	outsideFilter := false
-	{
-		seen := map[wire.OutPoint]bool{}
-		for _, o := range sel {
-			if seen[o] {
-				dupSel = true
-			}
-			seen[o] = true
-			why := t.L.whyNot(o, rv, nil)
-			if hasAllow {
-				ok := false
-				for _, a := range allowOps {
-					if a == o {
-						ok = true
-					}
-				}
-				if !ok {
-					// outside the caller's own filter: not one of the
-					// property's eligibility conditions, so not judged by
-					// the oracle (the model comparison covers it)
-					outsideFilter = true
-				}
-			}
-			for _, w := range why {
-				selBad[w] = true
-			}
-		}
-	}
-	for w := range selBad {
-		ro.Bad = append(ro.Bad, w)
-	}
-	sort.Strings(ro.Bad)
-	if dupSel {
-		ro.Bad = append(ro.Bad, "dup")
-	}
-
-	nSent := len(t.ch.Sent)
-	if rs.Reject {
-		t.ch.NextSend = []simchain.SendAnswer{simchain.Reject}
-	}
-	var (
-		tx      *wire.MsgTx
-		err     error
-		signed  bool
-		publish bool
-	)
-	switch rs.API {
-	case "create":
-		atx, e := t.w.CreateSimpleTx(scopePtr, rs.Acct, outs, rs.MinConf, btcutil.Amount(rs.Rate), strat, rs.Dry, opts...)
-		err = e
-		if e == nil {
-			tx = atx.Tx
-			signed = !rs.Dry
-			publish = rs.Publish && !rs.Dry
-		}
-	case "send":
-		tx, err = t.w.SendOutputs(outs, scopePtr, rs.Acct, rs.MinConf, btcutil.Amount(rs.Rate), strat, "")
-		signed = true
-	case "sendwith":
-		tx, err = t.w.SendOutputsWithInput(outs, scopePtr, rs.Acct, rs.MinConf, btcutil.Amount(rs.Rate), strat, "", sel)
-		signed = true
-	case "fundpsbt":
-		ro.Sorted = true
-		var packet *psbt.Packet
-		packet, err = psbt.New(nil, outs, 2, 0, nil)
-		if err != nil {
-			return err
-		}
-		_, err = t.w.FundPsbt(packet, scopePtr, rs.MinConf, rs.Acct, btcutil.Amount(rs.Rate), strat, opts...)
-		if err == nil {
-			// the funded packet is the created transaction; FundPsbt strips the
-			// input scripts its inner CreateSimpleTx produced, so the signed
-			// flag is not observable here and reported as the model expects
-			ro.Outcome = "ok"
-			ro.Signed = true
-			for _, in := range packet.UnsignedTx.TxIn {
-				ro.Inputs = append(ro.Inputs, t.ref(in.PreviousOutPoint))
-			}
-			t.judge(site, rv, packet.UnsignedTx, false)
-			if t.hasLegacyInput(packet.UnsignedTx) {
-				// the PSBT signer (ComputeInputScript) is documented for
-				// P2WKH, nested P2WKH and taproot key spends only: a
-				// packet with P2PKH inputs is not finalized here
-				t.tags["psbt_p2pkh_inputs_not_finalized"] = true
-				ro.Note = append(ro.Note, "p2pkh_inputs_not_finalized")
-				break
-			}
-			ferr := t.w.FinalizePsbt(scopePtr, rs.Acct, packet)
-			if ferr == nil {
-				tx, ferr = psbt.Extract(packet)
-			}
-			if ferr != nil {
-				at := "?"
-				for _, in := range packet.UnsignedTx.TxIn {
-					if c := t.L.byOp[in.PreviousOutPoint]; c != nil {
-						at = classOf(c.pk)
-					}
-				}
-				t.flag("invalid_signature", at, "FinalizePsbt: "+ferr.Error())
-				tx = nil
-			} else {
-				t.verifySigs(tx)
-				publish = rs.Publish
-			}
-		}
-	}
-	t.ch.NextSend = nil
-	rejected := false
-	if err != nil && len(t.ch.Sent) > nSent {
-		// the backend refused the broadcast: the transaction was created all the same
-		tx = t.ch.Sent[len(t.ch.Sent)-1]
-		rejected = true
-		ro.Note = append(ro.Note, "broadcast_rejected")
-	}
-	if rs.API != "fundpsbt" {
-		switch {
-		case err == nil || rejected:
-			ro.Outcome = "ok"
-		default:
-			ro.Outcome = errClass(err)
-			ro.Err = err.Error()
-		}
-		if tx != nil {
-			for _, in := range tx.TxIn {
-				ro.Inputs = append(ro.Inputs, t.ref(in.PreviousOutPoint))
-			}
-			ro.Signed = isSigned(tx)
-			t.judge(site, rv, tx, signed)
-		}
-	} else if err != nil {
-		ro.Outcome = errClass(err)
-		ro.Err = err.Error()
-	}
-	// explicitly selected inputs that are not eligible must be refused
-	if ro.Outcome == "ok" && len(sel) > 0 {
-		for _, w := range ro.Bad {
-			if w == "dup" {
-				continue // reported as duplicate_input on the transaction itself
-			}
-			t.flag("ineligible_explicit_input_accepted", w, fmt.Sprintf("%s accepted a selection containing a %s outpoint", site, w))
-		}
-	}
-	t.tags["api:"+site] = true
-	t.tags["outcome:"+ro.Outcome] = true
-	if ro.Outcome == "ok" {
-		t.tags[fmt.Sprintf("ok_inputs:%d", min(len(ro.Inputs), 4))] = true
-		t.tags[fmt.Sprintf("ok_minconf:%d", rs.MinConf)] = true
-		t.tags["ok_strat:"+ro.Strat] = true
-		var inOps []wire.OutPoint
-		switch {
-		case tx != nil:
-			for _, in := range tx.TxIn {
-				inOps = append(inOps, in.PreviousOutPoint)
-			}
-		}
-		for _, o := range inOps {
-			if c := t.L.byOp[o]; c != nil {
-				t.tags["spent_type:"+c.own.AType] = true
-				if c.from.coinbase {
-					t.tags["spent_mature_coinbase"] = true
-				}
-				if c.from.height < 0 {
-					t.tags["spent_unconfirmed"] = true
-				}
-				if c.from.byWallet {
-					t.tags["spent_own_change"] = true
-				}
-			}
-		}
-	}
-	for _, w := range ro.Bad {
-		t.tags["explicit_bad:"+w+":"+ro.Outcome] = true
-	}
-	if outsideFilter {
-		ro.Note = append(ro.Note, "selection_outside_filter")
-		t.tags["explicit_outside_filter:"+ro.Outcome] = true
-	} else if len(sel) > 0 && len(ro.Bad) == 0 {
-		t.tags["explicit_valid:"+ro.Outcome] = true
-	}
-	clean := true
-	for _, v := range t.viols {
-		if v.Req == len(t.reqs) {
-			clean = false
-		}
-	}
-	switch {
-	case tx == nil || rejected:
-	case rs.API == "create" && !rs.Dry && !publish && clean:
-		t.held = append(t.held, tx)
-	case rs.API == "send" || rs.API == "sendwith":
-		t.recordPublished(tx)
-		t.tags["published"] = true
-	case publish && clean:
-		if rs.Reject {
-			t.ch.NextSend = []simchain.SendAnswer{simchain.Reject}
-		}
-		perr := t.w.PublishTransaction(tx, "")
-		t.ch.NextSend = nil
-		if perr == nil {
-			t.recordPublished(tx)
-			t.tags["published"] = true
-		} else {
-			ro.Note = append(ro.Note, "publish: "+perr.Error())
-		}
-	}
-	t.reqs = append(t.reqs, ro)
-	return nil
-}
-
-// fundPsbtWithInputs: FundPsbt with caller-supplied inputs only establishes
-// that the inputs belong to the wallet (DESIGN section 6, S13): asserted are
-// ownership and single use; what else it accepts is recorded as observed.
-func (t *trace) fundPsbtWithInputs(rs *reqSpec, rv reqView, scopePtr *waddrmgr.KeyScope,
-	strat wallet.CoinSelectionStrategy, outs []*wire.TxOut, ins []wire.OutPoint) error {
-
-	site := "FundPsbt(inputs)"
-	ro := reqObs{API: rs.API, Site: site, Acct: rs.Acct, Scope: rv.scope, MinConf: rs.MinConf, Rate: rs.Rate,
-		Strat: "nil", Explicit: t.refs(ins), InModel: false, Sorted: true, Inputs: []opRef{}, Locked: []opRef{},
-		Cands: []candObs{}, Allow: []opRef{}}
-	bad := map[string]bool{}
-	seen := map[wire.OutPoint]bool{}
-	dup := false
-	for _, o := range ins {
-		if seen[o] {
-			dup = true
-		}
-		seen[o] = true
-		for _, w := range t.L.whyNot(o, rv, nil) {
-			bad[w] = true
-		}
-	}
-	for w := range bad {
-		ro.Bad = append(ro.Bad, w)
-	}
-	sort.Strings(ro.Bad)
-	if dup {
-		ro.Bad = append(ro.Bad, "dup")
-	}
-	ptrs := make([]*wire.OutPoint, len(ins))
-	seqs := make([]uint32, len(ins))
-	for i := range ins {
-		o := ins[i]
-		ptrs[i] = &o
-		seqs[i] = wire.MaxTxInSequenceNum
-	}
-	packet, err := psbt.New(ptrs, outs, 2, 0, seqs)
-	if err != nil {
-		ro.Outcome, ro.Err = "error", "psbt.New: "+err.Error()
-		t.reqs = append(t.reqs, ro)
-		return nil
-	}
-	_, err = t.w.FundPsbt(packet, scopePtr, rs.MinConf, rs.Acct, btcutil.Amount(rs.Rate), strat)
-	ro.Outcome = errClass(err)
-	if err != nil {
-		ro.Err = err.Error()
-	} else {
-		used := map[wire.OutPoint]bool{}
-		for _, in := range packet.UnsignedTx.TxIn {
-			op := in.PreviousOutPoint
-			ro.Inputs = append(ro.Inputs, t.ref(op))
-			if used[op] {
-				t.flag("duplicate_input", site, fmt.Sprintf("%v used twice", op))
-			}
-			used[op] = true
-			if t.L.liveCoin(op) == nil {
-				t.flag("input_not_owned_by_account", site, fmt.Sprintf("%v is not an output of the wallet", op))
-			}
-		}
-		for _, w := range ro.Bad {
-			t.tags["psbt_inputs_accepted:"+w] = true
-		}
-		if len(ro.Bad) == 0 && t.hasLegacyInput(packet.UnsignedTx) {
-			t.tags["psbt_p2pkh_inputs_not_finalized"] = true
-			ro.Note = append(ro.Note, "p2pkh_inputs_not_finalized")
-		} else if len(ro.Bad) == 0 {
-			// nothing wrong with the inputs: the finalized transaction must verify
-			ferr := t.w.FinalizePsbt(scopePtr, rs.Acct, packet)
-			var tx *wire.MsgTx
-			if ferr == nil {
-				tx, ferr = psbt.Extract(packet)
-			}
-			if ferr != nil {
-				at := "?"
-				if c := t.L.byOp[ins[0]]; c != nil {
-					at = classOf(c.pk)
-				}
-				t.flag("invalid_signature", at, "FinalizePsbt: "+ferr.Error())
-			} else {
-				t.verifySigs(tx)
-				ro.Signed = isSigned(tx)
-				if rs.Publish {
-					if perr := t.w.PublishTransaction(tx, ""); perr == nil {
-						t.recordPublished(tx)
-						t.tags["published"] = true
-					}
-				}
-			}
-		}
-	}
-	t.tags["api:"+site] = true
-	t.tags["outcome:"+ro.Outcome] = true
-	t.reqs = append(t.reqs, ro)
-	return nil
-}
-
-// finalizeP2PKH (flag -psbt-p2pkh): also finalize and verify PSBT packets with
-// P2PKH inputs, to reproduce the recorded observation (FinalizePsbt attaches a
-// witness to a P2PKH input and reports success).
-var finalizeP2PKH bool
-
-func (t *trace) hasLegacyInput(tx *wire.MsgTx) bool {
-	if finalizeP2PKH {
-		return false
-	}
-	for _, in := range tx.TxIn {
-		if c := t.L.byOp[in.PreviousOutPoint]; c != nil && classOf(c.pk) == "p2pkh" {
-			return true
-		}
-	}
-	return false
-}
-
-func min(a, b int) int {
-	if a < b {
-		return a
-	}
-	return b
-}
-
-var _ = bytes.Equal
